@@ -51,7 +51,7 @@ def ncf2wind(ncffile, outpath, tflag='TFLAG'):
                 buf = np.array([(vals.size) * 4],
                                ndmin=1).astype('>i').tobytes()
                 outfile.write(buf)
-                vals.tofile(outfile)
+                np.ma.filled(vals).tofile(outfile)
                 outfile.write(buf)
         vals = np.array(0, dtype='>i')
         buf = np.array([(vals.size) * 4], ndmin=1).astype('>i').tobytes()
